@@ -373,7 +373,7 @@ pub struct Session {
 impl Session {
 	pub async fn new(cfg: Cfg) -> Session {
 		let fix = Fixture::new(cfg);
-		let ws = fix.ws().await.expect("ws handshake");
+		let ws = fix.ws_e().await.expect("ws handshake");
 		Session { fix, ws, sentinel: 0 }
 	}
 }
@@ -413,7 +413,7 @@ pub async fn check_message(s: &mut Session, bytes: &[u8], prefer_text: bool, obs
 
 	// ---- HTTP
 	let log0 = s.fix.ctx.log_len();
-	let http = s.fix.http_post(bytes).await;
+	let http = s.fix.http_post_e(bytes).await;
 	settle().await;
 	let http_log = s.fix.ctx.log_since(log0);
 	// ---- WS
@@ -583,14 +583,26 @@ pub async fn check_message(s: &mut Session, bytes: &[u8], prefer_text: bool, obs
 pub struct MsgsCase {
 	pub msgs: Vec<Msg>,
 	pub binary: bool,
+	/// 0 = TowerService, 1 = low-level entry points, 2 = TowerService built through set_http_middleware
+	#[serde(default)]
+	pub entry: u8,
 }
 
 pub struct Messages;
 
 pub fn run_bytes_session(list: &[Vec<u8>], binary: bool, obs: &mut Obs) {
+	run_bytes_session_on(list, binary, 0, obs)
+}
+
+pub fn run_bytes_session_on(list: &[Vec<u8>], binary: bool, entry: u8, obs: &mut Obs) {
 	let rt = rt();
 	rt.block_on(async {
-		let mut s = Session::new(Cfg::default()).await;
+		let mut s = Session::new(Cfg { entry: if entry == 1 { 1 } else { 0 }, via_set_http_middleware: entry == 2, ..Cfg::default() }).await;
+		obs.class(match entry {
+			1 => "entry:low-level",
+			2 => "entry:set_http_middleware",
+			_ => "entry:tower-service",
+		});
 		for bytes in list {
 			let label = check_message(&mut s, bytes, !binary, obs).await;
 			let first = bytes.iter().take(128).find(|b| !b.is_ascii_whitespace());
@@ -616,7 +628,7 @@ impl SubCheck for Messages {
 	}
 	fn strategy(&self, tier: Tier) -> BoxedStrategy<MsgsCase> {
 		let d = tier.pick(3, 6);
-		(proptest::collection::vec(arb_msg(d), 1..6), any::<bool>()).prop_map(|(msgs, binary)| MsgsCase { msgs, binary }).boxed()
+		(proptest::collection::vec(arb_msg(d), 1..6), any::<bool>(), prop_oneof![6 => Just(0u8), 3 => Just(1u8), 1 => Just(2u8)]).prop_map(|(msgs, binary, entry)| MsgsCase { msgs, binary, entry }).boxed()
 	}
 	fn run(&self, case: &MsgsCase, obs: &mut Obs) {
 		let list: Vec<Vec<u8>> = case.msgs.iter().map(render_msg).collect();
@@ -633,7 +645,7 @@ impl SubCheck for Messages {
 			}
 		}
 		obs.sample(json!({"messages": list.iter().map(|b| String::from_utf8_lossy(b).to_string()).collect::<Vec<_>>(), "binary": case.binary}));
-		run_bytes_session(&list, case.binary, obs);
+		run_bytes_session_on(&list, case.binary, case.entry, obs);
 	}
 }
 
@@ -772,7 +784,7 @@ pub fn corpus_replay(ctx: &mut Ctx) {
 	}
 	let n = list.len() as u64;
 	for chunk in list.chunks(32) {
-		let case = MsgsCase { msgs: chunk.iter().map(|b| Msg::Bytes(b.clone())).collect(), binary: true };
+		let case = MsgsCase { msgs: chunk.iter().map(|b| Msg::Bytes(b.clone())).collect(), binary: true, entry: 0 };
 		ctx.run_case(&Messages, &case);
 	}
 	ctx.note_class("corpus-files", n);
